@@ -328,7 +328,8 @@ func c20Specs(tier string) []*engine.BFS[*slotState] {
 	if tier == "thorough" {
 		// (2,16,3,4) does not reach its fixpoint within millions of states; (2,12,3,3) and (3,9,3,4) do, and keep
 		// the shape "byte capacity far above what the slots can hold at once"
-		return []*engine.BFS[*slotState]{seqSpec(3, 6, 4, 3), seqSpec(4, 8, 5, 3), seqSpec(2, 12, 3, 3), seqSpec(3, 9, 3, 4), offSpec(6, 3, 4), offSpec(10, 3, 5)}
+		// (the written-ahead packet multiplies the states: it is explored with two of the four sequencers)
+		return []*engine.BFS[*slotState]{seqSpec(3, 6, 4, 3), seqSpec(4, 8, 5, 3, false), seqSpec(2, 12, 3, 3), seqSpec(3, 9, 3, 4, false), offSpec(6, 3, 4), offSpec(10, 3, 5)}
 	}
 	return []*engine.BFS[*slotState]{seqSpec(3, 6, 4, 3), seqSpec(2, 10, 3, 4, false), offSpec(6, 3, 3)}
 }
